@@ -24,8 +24,9 @@ ASSUMPTIONS = [
     'positive temperatures, distinct tabulated temperatures',
     'numpy/scipy InterpolatedUnivariateSpline is a black-box interpolant '
     '(piecewise polynomial of degree <=3 between data points)',
-    'tolerances: 1e-9 relative for Cp/H relations, 1e-6 relative for S '
-    '(the code integrates Cp/T numerically with epsabs~1.5e-8)',
+    'tolerances: 1e-9 relative to the L1 norm of the observed integrand for '
+    'the H and S relations (the code integrates Cp/T numerically, piecewise '
+    'between data points)',
 ]
 CONFIG = {
     'shards': {'quick': 16, 'thorough': 16},
@@ -153,12 +154,16 @@ def check_relations(ctx, case, obj, temps, label):
                 return None
             cumH += iH
             cumS += iS
-            scaleH += cpmax * (b - a)
-            scaleS += cpmax * math.log(b / a)
+            # tolerances are relative to the L1 norm of the observed
+            # integrand (an interpolant may overshoot the tabulated values)
+            scaleH += max(cpmax * (b - a), tables.integrate_pieces(
+                lambda t: np.abs(f(t)), a, b, ts))
+            scaleS += max(cpmax * math.log(b / a), tables.integrate_pieces(
+                lambda t: np.abs(f(t)), a, b, ts, weight=lambda t: 1.0 / t))
             dH = b * vals[b][1] - T0 * vals[T0][1]
             dS = vals[b][2] - vals[T0][2]
             eH = abs(dH - cumH) / (1e-9 * scaleH + 1e-9)
-            eS = abs(dS - cumS) / (1e-6 * scaleS + 1e-7)
+            eS = abs(dS - cumS) / (1e-9 * scaleS + 1e-9)
             worstH = max(worstH, eH)
             worstS = max(worstS, eS)
             if eH > 1.0:
